@@ -442,7 +442,11 @@ func (c *otApplyContext) matchPropertiesMark(glyph GID, glyphProps uint16, match
 		if int(matchProps>>16) >= len(sets) { // invalid set index: no glyph is covered
 			return false
 		}
-		_, has := sets[matchProps>>16].Index(gID(glyph))
+		set := sets[matchProps>>16]
+		if set == nil { // NULL offset in the mark glyph sets: no glyph is covered
+			return false
+		}
+		_, has := set.Index(gID(glyph))
 		return has
 	}
 
